@@ -29,7 +29,7 @@ pub fn plan(p: &EpParams) -> Plan {
     Plan {
         episodes: n,
         exhaustive: false,
-        rule: "life-cycle walks: 6-14 steps over {create push subscription to endpoint A|B, create pull-only subscription, create with a topic of a foreign project (rejected), create with a push endpoint that starts like a URL but is none, delete subscription, a DeleteSubscription abandoned by its client followed at once by a push create of the same name, delete topic, re-create topic} on 3 subscription names x 2 topics in 2 projects with name reuse; after every step one tagged message is published to every live topic and 3 push intervals pass. Both endpoints answer 200. Oracle: reference model of (name -> topic incarnation, endpoint); POSTs compared with the model per message, pull-only subscriptions read back, push registry compared with the model at the end. Non-trivial: a name was reused after a deletion or a rejected create, and >=1 POST was observed. Distinct: the step sequence.".into(),
+        rule: "life-cycle walks: 6-14 steps over {create push subscription to endpoint A|B, create pull-only subscription, create with a topic of a foreign project (rejected), create with a push endpoint that starts like a URL but is none, delete subscription, a DeleteSubscription abandoned by its client followed at once by a push create of the same name, delete topic, re-create topic} on 3 subscription names x 2 topics in 2 projects with name reuse; after every step one tagged message is published to every live topic and 3 push intervals pass. Both endpoints answer 200. One walk in five ends with a delete while a page is in flight to a slow endpoint, one in forty with a backlog of 2300 messages on a push subscription whose endpoint takes 20 ms per POST. Oracle: reference model of (name -> topic incarnation, endpoint); POSTs compared with the model per message, pull-only subscriptions read back, push registry compared with the model at the end. Non-trivial: a name was reused after a deletion or a rejected create, and >=1 POST was observed. Distinct: the step sequence.".into(),
     }
 }
 
@@ -355,13 +355,78 @@ async fn episode(p: &EpParams) -> EpReport {
             }
         }
     }
+    // one walk in forty ends with a backlog of 2300 messages on a push subscription (ack deadline 10 s)
+    // whose endpoint takes 20 ms per POST: every message is POSTed, and none a second time while the
+    // lease of its first POST is still running
+    if rng.chance(1, 40) {
+        if let Some(t) = topics.iter().find(|t| live_topic.contains_key(*t)).cloned() {
+            let pname = if t.starts_with("projects/p1/") { sub_name(1, 78) } else { sub_name(2, 78) };
+            if cx.create_sub_full(&pname, &t, 10, Some(&eps[1].url), HashMap::new()).await.is_ok() {
+                eps[1].set_fallback(Behaviour::LateMs(20, 200));
+                let inc = live_topic.get(&t).copied().unwrap_or(0);
+                let mut published = 0usize;
+                for part in 0..3 {
+                    let msgs: Vec<Msg> = (0..(if part == 2 { 300 } else { 1000 })).map(|i| Msg::tagged(&format!("bg{}", part * 1000 + i))).collect();
+                    if cx.publish(&t, &msgs).await.is_ok() {
+                        published += msgs.len();
+                        for m in &msgs {
+                            allowed.insert((m.tag.clone(), pname.clone()), 1);
+                            for (n, sb) in subs.iter_mut() {
+                                if sb.topic == t && sb.topic_inc == inc {
+                                    sb.expect.push(m.tag.clone());
+                                    if let Some(e) = sb.endpoint.filter(|e| *e < 2) {
+                                        allowed.insert((m.tag.clone(), n.clone()), e);
+                                    }
+                                }
+                            }
+                        }
+                    }
+                }
+                subs.insert(pname.clone(), MSub { topic: t.clone(), topic_inc: inc, endpoint: Some(1), expect: (0..published).map(|i| format!("bg{}", i)).collect(), seen_by_pull: BTreeSet::new() });
+                for _ in 0..40 {
+                    tokio::time::sleep(Duration::from_secs(INTERVAL_S)).await;
+                    w.barrier().await;
+                    let seen: BTreeSet<String> = eps[1].posts().iter().filter(|r| r.sub == pname).map(|r| r.tag.clone()).collect();
+                    if seen.len() >= published {
+                        break;
+                    }
+                }
+                // two more rounds, then: per message, the POSTs in the order they began
+                for _ in 0..2 {
+                    tokio::time::sleep(Duration::from_secs(INTERVAL_S)).await;
+                    w.barrier().await;
+                }
+                let mut by_tag: BTreeMap<String, Vec<u64>> = BTreeMap::new();
+                for r in eps[1].posts().iter().filter(|r| r.sub == pname) {
+                    by_tag.entry(r.tag.clone()).or_default().push(r.vt_begin);
+                }
+                let mut overlapping = 0;
+                let mut example = String::new();
+                for (tag, mut v) in by_tag {
+                    v.sort();
+                    if v.len() >= 2 && v[1] < v[0] + 10 * SEC - 200 * MS {
+                        overlapping += 1;
+                        if example.is_empty() {
+                            example = format!("{} POSTed at {} ms and again at {} ms", tag, v[0] / MS, v[1] / MS);
+                        }
+                    }
+                }
+                if overlapping > 0 {
+                    rep.viol("C03", "C03:X3:lease-overlap:push", format!("{} of {} messages of a push backlog were POSTed a second time while the lease of their first POST (ack deadline 10 s) was still running, e.g. {}", overlapping, published, example));
+                }
+                eps[1].set_fallback(Behaviour::Status(200));
+                rep.inc("big_push_backlogs_drained");
+                steps.push("big-push-backlog".into());
+            }
+        }
+    }
     // a few more rounds of silence; longer (bounded) while a POST that has to come is still missing
     for round in 0..60 {
         tokio::time::sleep(Duration::from_secs(INTERVAL_S)).await;
         w.barrier().await;
-        let missing = allowed.iter().any(|((tag, name), e)| {
-            subs.get(name).map(|s| s.expect.contains(tag)).unwrap_or(false) && !eps[*e].posts().iter().any(|r| r.tag == *tag && r.sub == *name)
-        });
+        let seen: Vec<std::collections::HashSet<(String, String)>> = eps.iter().map(|e| e.posts().into_iter().map(|r| (r.tag, r.sub)).collect()).collect();
+        let expects: HashMap<&String, std::collections::HashSet<&String>> = subs.iter().map(|(n, s)| (n, s.expect.iter().collect())).collect();
+        let missing = allowed.iter().any(|((tag, name), e)| expects.get(name).map(|x| x.contains(tag)).unwrap_or(false) && !seen[*e].contains(&(tag.clone(), name.clone())));
         if round >= 4 && !missing {
             break;
         }
@@ -397,9 +462,10 @@ async fn episode(p: &EpParams) -> EpReport {
             }
         }
     }
+    let expect_sets: HashMap<&String, std::collections::HashSet<&String>> = subs.iter().map(|(n, s)| (n, s.expect.iter().collect())).collect();
     for ((tag, name), e) in &allowed {
         // a subscription deleted (or detached) shortly after the publish may legitimately never have pushed it
-        let still = subs.get(name).map(|s| s.expect.contains(tag)).unwrap_or(false);
+        let still = expect_sets.get(name).map(|x| x.contains(tag)).unwrap_or(false);
         if still && !posted.contains(&(tag.clone(), name.clone())) {
             if held_when_topic_deleted.iter().any(|(t2, n2)| t2 == tag && n2 == name) {
                 rep.viol("C11", "C11:detached-subscription-stopped-serving", format!("{} was held by {} when its topic was deleted and was never pushed afterwards (steps {:?})", tag, name, steps));
